@@ -1,4 +1,5 @@
 import I18n.Lemmas.IconvDlGenerated
+import I18n.Lemmas.EncodingsFnGenerated
 import I18n.Props.C20
 /-!
 # C20 — the tie by translation (first part): `lib/iconv.py` REGENERATED from the source is the model's loop
@@ -213,5 +214,182 @@ example : encodeRun euroIconv [0x20AC] (Py.lit "UTF-8") 3 = (.ok [0xE2, 0x82, 0x
 example (input : List UInt8) (enc : List Nat) (fuel : Nat) :
     Py.observe (IconvDl._decode_dl ⟨fun _ _ => some 22, fun _ _ => euroStep, none⟩ input enc fuel Py.World.init) = (.error (.os 22), []) := by
   rw [generated_decode_dl_eq_model]; rfl
+
+/-! # Second part: `lib/encodings.py` REGENERATED from the source is the model's classification, loader decode and codec search
+
+`I18n.Generated.EncodingsFn` is rewritten from the repository's current `lib/encodings.py` by `tools/translate/encodings2lean.py` on every
+run: the constants `_interesting_ascii_bytes` / `_interesting_ascii_str` evaluated from their defining expressions, and
+`is_portable_encoding`, `propose_portable_encoding`, `is_ascii_compatible_encoding`, `decode`, `charmap_encoding`, `iconv_encoding`,
+`_codec_search_function` statement by statement.  The module's tables, the codec registry, `bytes.decode` and the charmap files are
+parameters on both sides (`Model/EncodingsPy.lean`). -/
+
+open I18n.Charset.EGen I18n.Generated.Charset
+
+/-- **the repertoire, from the source text**: the defining expression of `_interesting_ascii_bytes` evaluates to the documented set
+    (NUL EOT BEL BS HT LF VT FF CR ESC + printable ASCII) — the same list the table translator dumped from the loaded module -/
+theorem generated_interesting_ascii_eq_model :
+    EncodingsFn.interesting_ascii_bytes = interestingBytes ∧ EncodingsFn.interesting_ascii_str = interestingStr ∧
+    EncodingsFn.interesting_ascii_bytes = [0, 4, 7, 8, 9, 10, 11, 12, 13, 27] ++ List.range' 32 95 := by
+  decide
+
+/-- `is_portable_encoding(encoding, python=…)` as regenerated = `isPortable`, for all tables -/
+theorem generated_is_portable_encoding_eq_model (tbl : List (Name × Bool)) (encoding : Name) (python : Bool) :
+    EncodingsFn.is_portable_encoding tbl encoding python = .ok (isPortable tbl python encoding) :=
+  is_portable_eq tbl encoding python
+
+/-- `propose_portable_encoding(encoding)` as regenerated = `propose`, for all tables and registries (`.error ()` of the model is the
+    AssertionError) -/
+theorem generated_propose_portable_encoding_eq_model (tbl : List (Name × Bool)) (c2e : List (Name × Name)) (registry : Name → Option Name)
+    (encoding : Name) (python : Bool) :
+    EncodingsFn.propose_portable_encoding tbl c2e registry encoding python =
+      (match propose tbl c2e registry encoding with
+       | .ok r => .ok r
+       | .error () => .error .assertion) :=
+  propose_eq tbl c2e registry encoding python
+
+/-- `is_ascii_compatible_encoding(encoding, missing_ok=…)` as regenerated = `isAsciiCompatible` on the outcome of decoding the
+    repertoire (`.error ()` of the model is EncodingLookupError) -/
+theorem generated_is_ascii_compatible_encoding_eq_model (dec : List Nat → Name → Dec) (encoding : Name) (missingOk : Bool) :
+    EncodingsFn.is_ascii_compatible_encoding dec encoding missingOk =
+      (match isAsciiCompatible interestingStr (dec interestingBytes encoding) missingOk with
+       | .ok b => .ok b
+       | .error () => .error .encodingLookup) := by
+  rw [is_ascii_eq, generated_interesting_ascii_eq_model.1, generated_interesting_ascii_eq_model.2.1]
+  rfl
+
+/-- `lib.encodings.decode(data, encoding)` as regenerated = `loaderDecode` -/
+theorem generated_encodings_decode_eq_model (rawdec : List UInt8 → Name → RawDecode) (data : List UInt8) (encoding : Name) :
+    EncodingsFn.decode rawdec data encoding = ofLoaded (loaderDecode data.length (rawdec data encoding)) :=
+  decode_eq rawdec data encoding
+
+/-- `charmap_encoding(encoding)` as regenerated: `data/charmaps/<ENCODING>` missing is EncodingLookupError; otherwise the codec decodes
+    with the file's table AS IT IS (nothing prepended, nothing dropped) and encodes with `charmap_build` of that table -/
+theorem generated_charmap_encoding_eq_model (files : Name → Option (List Nat)) (encoding : Name) :
+    EncodingsFn.charmap_encoding files encoding =
+      (match files (upper encoding) with
+       | some table => .ok (.charmap encoding table (encLookup table))
+       | none => .error .encodingLookup) :=
+  charmap_encoding_eq files encoding
+
+/-- `_codec_search_function(encoding)` as regenerated = `codecSearch`, for all tables and any set of charmap files -/
+theorem generated_codec_search_function_eq_model (tbl : List (Name × Bool)) (extra : List Name) (unm : List (Name × Name))
+    (files : Name → Option (List Nat)) (fileNames : List Name) (hfiles : ∀ n, (files n).isSome = fileNames.contains n) (encoding : Name) :
+    (EncodingsFn._codec_search_function tbl extra unm files encoding).map EPy.searchOf = .ok (codecSearch unm tbl extra fileNames encoding) := by
+  rw [codec_search_eq]
+  simp only [Except.map, codecSearch]
+  have hf := hfiles (upper ((assoc? encoding unm).getD encoding))
+  split
+  · cases hfl : files (upper ((assoc? encoding unm).getD encoding)) with
+    | none =>
+      rw [hfl] at hf
+      have hm : ¬ upper ((assoc? encoding unm).getD encoding) ∈ fileNames := by simpa using hf.symm
+      simp [EPy.searchOf, hm]
+    | some t =>
+      rw [hfl] at hf
+      have hm : upper ((assoc? encoding unm).getD encoding) ∈ fileNames := by simpa using hf.symm
+      simp [EPy.searchOf, hm]
+  · simp [EPy.searchOf]
+
+/-! ## theorems of `Props/C20.lean`, about the regenerated functions -/
+
+/-- **the verdict looks at the tested bytes only**, of the regenerated function: for a codec that decodes byte by byte (`f`) the answer
+    is "`f` is the identity on the repertoire" -/
+theorem ascii_verdict_bytewise_generated (dec : List Nat → Name → Dec) (encoding : Name) (f : Nat → Nat) (mo : Bool)
+    (hdec : dec interestingBytes encoding = .text (interestingBytes.map f)) :
+    EncodingsFn.is_ascii_compatible_encoding dec encoding mo = .ok (decide (∀ b ∈ interestingBytes, f b = b)) := by
+  rw [generated_is_ascii_compatible_encoding_eq_model, hdec, (C20.ascii_verdict_bytewise f f mo).1]
+
+/-- unknown to Python (LookupError, or any non-Unicode exception): `False` with `missing_ok`, EncodingLookupError without -/
+theorem ascii_unknown_generated (dec : List Nat → Name → Dec) (encoding : Name) (h : dec interestingBytes encoding = .lookup) :
+    EncodingsFn.is_ascii_compatible_encoding dec encoding true = .ok false ∧
+    EncodingsFn.is_ascii_compatible_encoding dec encoding false = .error .encodingLookup := by
+  simp [generated_is_ascii_compatible_encoding_eq_model, h, isAsciiCompatible]
+
+/-- **whatever the regenerated `propose_portable_encoding` returns is portable** by the regenerated `is_portable_encoding` -/
+theorem proposal_portable_generated (tbl : List (Name × Bool)) (c2e : List (Name × Name)) (registry : Name → Option Name) (name p : Name)
+    (h : EncodingsFn.propose_portable_encoding tbl c2e registry name true = .ok (some p)) :
+    EncodingsFn.is_portable_encoding tbl p true = .ok true := by
+  rw [generated_propose_portable_encoding_eq_model] at h
+  rw [generated_is_portable_encoding_eq_model]
+  cases hp : propose tbl c2e registry name with
+  | error u => rw [hp] at h; cases h
+  | ok r =>
+    rw [hp] at h
+    simp only [Except.ok.injEq] at h
+    subst h
+    rw [C20.proposal_portable tbl c2e registry name p hp]
+
+/-- **with the loaded tables the `assert` of the regenerated function never fires**, whatever the registry -/
+theorem proposal_sound_generated (registry : Name → Option Name) (name : Name) :
+    EncodingsFn.propose_portable_encoding portableEncodings pycodecToEncoding registry name true ≠ .error .assertion := by
+  rw [generated_propose_portable_encoding_eq_model]
+  have := (C20.proposal_sound registry name).1
+  cases hp : propose portableEncodings pycodecToEncoding registry name with
+  | error u => exact (this hp).elim
+  | ok r => simp
+
+/-- **`encodings.decode` as regenerated yields text or a UnicodeDecodeError** (a bare UnicodeError becomes one spanning the data) -/
+theorem loader_decode_total_generated (rawdec : List UInt8 → Name → RawDecode) (data : List UInt8) (encoding : Name)
+    (hraw : rawdec data encoding ≠ .other) :
+    (∃ cs, EncodingsFn.decode rawdec data encoding = .ok cs) ∨
+    (∃ s e, EncodingsFn.decode rawdec data encoding = .error (.unicodeDecode s e) ∧
+      (rawdec data encoding = .unicodeError → s = 0 ∧ e = data.length)) := by
+  rw [generated_encodings_decode_eq_model]
+  rcases C20.loader_decode_total data.length _ hraw with ⟨cs, h⟩ | ⟨s, e, h, h2⟩
+  · exact .inl ⟨cs, by rw [h]; rfl⟩
+  · refine .inr ⟨s, e, by rw [h]; rfl, fun hu => ?_⟩
+    have := h2 hu
+    omega
+
+/-- the shipped charmap files as the loader's file system -/
+def shippedFiles : Name → Option (List Nat) := fun n => assoc? n charmaps
+
+/-- **the regenerated search function serves the five extra codecs**: three with exactly the shipped table (decode) and its
+    `charmap_build` (encode), two through iconv; names Python knows are left alone -/
+theorem codec_search_extra_generated :
+    let search := fun (s : String) => EncodingsFn._codec_search_function portableEncodings extraEncodings unmangle shippedFiles (EPy.lit s)
+    (search "koi8_ru").map EPy.searchOf = .ok (.charmap (EPy.lit "KOI8-RU")) ∧
+    (search "viscii").map EPy.searchOf = .ok (.charmap (EPy.lit "VISCII")) ∧
+    (search "georgian_ps").map EPy.searchOf = .ok (.charmap (EPy.lit "GEORGIAN-PS")) ∧
+    (search "koi8_t").map EPy.searchOf = .ok (.iconv (EPy.lit "koi8-t")) ∧
+    (search "euc_tw").map EPy.searchOf = .ok (.iconv (EPy.lit "euc-tw")) ∧
+    (search "utf_8").map EPy.searchOf = .ok .notOurs ∧
+    (∀ t e, search "viscii" = .ok (some (.charmap (EPy.lit "viscii") t e)) → t = charmap_VISCII ∧ e = encLookup charmap_VISCII) := by
+  have hgen : ∀ (l : List (Name × List Nat)) (n : Name), (assoc? n l).isSome = (l.map (·.1)).contains n := by
+    intro l n
+    induction l with
+    | nil => rfl
+    | cons kv rest ih =>
+      obtain ⟨k, v⟩ := kv
+      simp only [assoc?, List.map_cons, List.contains_cons]
+      by_cases h : k = n
+      · subst h; simp
+      · have h' : (n == k) = false := by simpa using fun hh => h hh.symm
+        simp only [h, if_false, ih, h', Bool.false_or]
+  have hfiles : ∀ n, (shippedFiles n).isSome = (charmaps.map (·.1)).contains n := fun n => hgen charmaps n
+  have key := C20.codec_search_extra
+  simp only at key ⊢
+  refine ⟨?_, ?_, ?_, ?_, ?_, ?_, ?_⟩
+  · rw [generated_codec_search_function_eq_model _ _ _ _ _ hfiles]; exact congrArg _ key.1
+  · rw [generated_codec_search_function_eq_model _ _ _ _ _ hfiles]; exact congrArg _ key.2.1
+  · rw [generated_codec_search_function_eq_model _ _ _ _ _ hfiles]; exact congrArg _ key.2.2.1
+  · rw [generated_codec_search_function_eq_model _ _ _ _ _ hfiles]; exact congrArg _ key.2.2.2.1
+  · rw [generated_codec_search_function_eq_model _ _ _ _ _ hfiles]; exact congrArg _ key.2.2.2.2.1
+  · rw [generated_codec_search_function_eq_model _ _ _ _ _ hfiles]; exact congrArg _ key.2.2.2.2.2.1
+  · intro t e h
+    rw [codec_search_eq] at h
+    have hv : (assoc? (EPy.lit "viscii") unmangle).getD (EPy.lit "viscii") = EPy.lit "viscii" := by decide +kernel
+    have hc : (assoc? (EPy.lit "viscii") portableEncodings == some false || extraEncodings.contains (EPy.lit "viscii")) = true := by decide +kernel
+    have hf : shippedFiles (upper (EPy.lit "viscii")) = some charmap_VISCII := by decide +kernel
+    simp only [hv, hc, hf, if_true, Except.ok.injEq, Option.some.injEq, EPy.Codec.charmap.injEq, true_and] at h
+    exact ⟨h.1.symm, h.2.symm⟩
+
+/-! Non-vacuity -/
+
+example : EncodingsFn.is_portable_encoding portableEncodings (EPy.lit "ISO_8859-2") true = .ok true := by
+  rw [generated_is_portable_encoding_eq_model]; decide +kernel
+
+example : EncodingsFn.decode (fun _ _ => .unicodeError) [1, 2, 3] (EPy.lit "idna") = .error (.unicodeDecode 0 3) := by
+  rw [generated_encodings_decode_eq_model]; rfl
 
 end I18n.Props.C20Tie
